@@ -176,6 +176,14 @@ svcn!(SvcD, "shared", M1);
 svcn!(SvcE, "shared", M2);
 svcn!(SvcS, "store", M1, M2, M3, M4);
 svcn!(SvcG, "gen<M1>", M1);
+// H: the same generic service instantiated with another parameter: the name differs from G's only after the `<`, the message is the same
+svcn!(SvcH, "gen<M2>", M1);
+// I, J: names that differ only in a character a path sanitiser could fold (`::` vs `_`), same message
+svcn!(SvcI, "kv::store", M1);
+svcn!(SvcJ, "kv_store", M1);
+// K: the name G's sanitised form happens to be; L: a service generic over two parameters (`type_name` puts ", " between them)
+svcn!(SvcK, "gen-M1-", M1);
+svcn!(SvcL, "pair<M1, M2>", M1);
 svcn!(SvcP0, "ping-0", M1);
 svcn!(SvcP1, "ping-1", M1);
 svcn!(SvcP2, "ping-2", M1);
@@ -457,6 +465,14 @@ impl Domain for RpcDomain {
                 }
             },
             // ---- C13 registry
+            "uri" => {
+                // uri <hex service name> <hex message name>: the request path the crate builds (hook), as hex
+                let dec = |x: &str| String::from_utf8(if x == "-" { Vec::new() } else { crate::unhex(x) }).expect("utf-8 names");
+                let path = datacake_rpc::verif::uri_path(&dec(t[1]), &dec(t[2]));
+                // the path must also be one the client can build a request for
+                let valid = format!("http://127.0.0.1:1{}", path).parse::<http::Uri>().is_ok();
+                format!("uri {}{}", crate::hex(path.as_bytes()), if valid { "" } else { " INVALID" })
+            },
             "add" => {
                 let inst = p_u64(t[2]);
                 let srv = self.server();
@@ -468,6 +484,11 @@ impl Domain for RpcDomain {
                     "E" => srv.add_service(SvcE { inst }),
                     "S" => srv.add_service(SvcS { inst }),
                     "G" => srv.add_service(SvcG { inst }),
+                    "H" => srv.add_service(SvcH { inst }),
+                    "I" => srv.add_service(SvcI { inst }),
+                    "J" => srv.add_service(SvcJ { inst }),
+                    "K" => srv.add_service(SvcK { inst }),
+                    "L" => srv.add_service(SvcL { inst }),
                     "P0" => srv.add_service(SvcP0 { inst }),
                     "P1" => srv.add_service(SvcP1 { inst }),
                     "P2" => srv.add_service(SvcP2 { inst }),
@@ -489,6 +510,11 @@ impl Domain for RpcDomain {
                     "D" | "E" => srv.remove_service("shared"),
                     "S" => srv.remove_service("store"),
                     "G" => srv.remove_service(SvcG::service_name()),
+                    "H" => srv.remove_service(SvcH::service_name()),
+                    "I" => srv.remove_service(SvcI::service_name()),
+                    "J" => srv.remove_service(SvcJ::service_name()),
+                    "K" => srv.remove_service(SvcK::service_name()),
+                    "L" => srv.remove_service(SvcL::service_name()),
                     "P0" => srv.remove_service("ping-0"),
                     "P1" => srv.remove_service("ping-1"),
                     "P2" => srv.remove_service("ping-2"),
@@ -519,6 +545,11 @@ impl Domain for RpcDomain {
                     ("D", "M1") => runtime().block_on(RpcClient::<SvcD>::new(ch).send(&M1 { tag: 1 })).map(|r| r.deserialize_view().unwrap_or(u64::MAX)),
                     ("E", "M2") => runtime().block_on(RpcClient::<SvcE>::new(ch).send(&M2 { tag: 2 })).map(|r| r.deserialize_view().unwrap_or(u64::MAX)),
                     ("G", "M1") => runtime().block_on(RpcClient::<SvcG>::new(ch).send(&M1 { tag: 1 })).map(|r| r.deserialize_view().unwrap_or(u64::MAX)),
+                    ("H", "M1") => runtime().block_on(RpcClient::<SvcH>::new(ch).send(&M1 { tag: 1 })).map(|r| r.deserialize_view().unwrap_or(u64::MAX)),
+                    ("I", "M1") => runtime().block_on(RpcClient::<SvcI>::new(ch).send(&M1 { tag: 1 })).map(|r| r.deserialize_view().unwrap_or(u64::MAX)),
+                    ("J", "M1") => runtime().block_on(RpcClient::<SvcJ>::new(ch).send(&M1 { tag: 1 })).map(|r| r.deserialize_view().unwrap_or(u64::MAX)),
+                    ("K", "M1") => runtime().block_on(RpcClient::<SvcK>::new(ch).send(&M1 { tag: 1 })).map(|r| r.deserialize_view().unwrap_or(u64::MAX)),
+                    ("L", "M1") => runtime().block_on(RpcClient::<SvcL>::new(ch).send(&M1 { tag: 1 })).map(|r| r.deserialize_view().unwrap_or(u64::MAX)),
                     ("S", "M1") => runtime().block_on(RpcClient::<SvcS>::new(ch).send(&M1 { tag: 1 })).map(|r| r.deserialize_view().unwrap_or(u64::MAX)),
                     ("S", "M2") => runtime().block_on(RpcClient::<SvcS>::new(ch).send(&M2 { tag: 2 })).map(|r| r.deserialize_view().unwrap_or(u64::MAX)),
                     ("S", "M3") => runtime().block_on(RpcClient::<SvcS>::new(ch).send(&M3 { tag: 3 })).map(|r| r.deserialize_view().unwrap_or(u64::MAX)),
